@@ -1,5 +1,5 @@
 #!/bin/bash
 # C20 entry: ./check C20 <quick|thorough>  |  ./check C20 --replay <file>
-cd /verif/c20 || exit 2
+cd "$(dirname "$0")" || exit 2
 if [ "${1:-quick}" = "--replay" ]; then exec python3 check_c20.py --replay "$2"; fi
 exec python3 check_c20.py "${1:-quick}"
